@@ -291,12 +291,61 @@ def exhaustive_depth2(rng):
 
 # ------------------------------------------------------------------ layout --
 
-LAYOUTS = ["compact", "multiline", "tabs", "crlf", "unicode", "wide"]
+LAYOUTS = ["compact", "multiline", "tabs", "crlf", "unicode", "wide", "split"]
+
+
+def split_spaces(text, rng, prob=0.25):
+    """`split` layout: some of the single spaces of a one-line rendering become line breaks (same length, so every recorded
+    offset stays valid): the tokens of ONE sub-pattern (operator and operand, the segments of a path, the bounds of a range,
+    a closure) then sit on different lines, the continuation at column 0 — left of where the sub-pattern began.  Never inside
+    a string or char literal."""
+    out = []
+    i, n = 0, len(text)
+    while i < n:
+        ch = text[i]
+        if ch == '"':
+            j = i + 1
+            while j < n and text[j] != '"':
+                j += 2 if text[j] == "\\" else 1
+            out.append(text[i:j + 1])
+            i = j + 1
+            continue
+        if ch == "r" and text[i + 1:i + 2] in ('"', "#") and (i == 0 or not (text[i - 1].isalnum() or text[i - 1] == "_")):
+            j = i + 1
+            h = 0
+            while j < n and text[j] == "#":
+                h += 1
+                j += 1
+            if j < n and text[j] == '"':
+                end = text.find('"' + "#" * h, j + 1)
+                end = n if end < 0 else end + 1 + h
+                out.append(text[i:end])
+                i = end
+                continue
+        if ch == "'":
+            m = None
+            if text[i + 1:i + 2] == "\\":
+                m = text.find("'", i + 2)
+            elif text[i + 2:i + 3] == "'":
+                m = i + 2
+            if m is not None and m > 0:
+                out.append(text[i:m + 1])
+                i = m + 1
+                continue
+        if ch == " " and rng.random() < prob:
+            out.append("\n")
+        else:
+            out.append(ch)
+        i += 1
+    return "".join(out)
 
 
 def render(root, rng, layout="compact", value=None):
     """Returns (invocation_text, pattern_offset).  Sets node.extent / node.index on
     every node (character offsets within the invocation text)."""
+    if layout == "split":
+        text, poff = render(root, rng, "compact", value)
+        return split_spaces(text, rng), poff
     value = value if value is not None else rng.choice(VALUES)
     out = []
     pos = [0]
